@@ -11,8 +11,8 @@ import PqModel.Reset
 * sorting: comma list of `idx:desc:nullsFirst` (0/1) or `-`
 * metadata: comma list of `hexkey=hexvalue` or `-`
 * ops: `;`-separated (or `-` for none)
-    `w:<rows>:<eff>/<eff>/…` eff = `sw,onplain,type,enc,buf,plain,dict,held,pages,filter,rows,values,tcs,locs,bloomlen,hist…`
-                             (buf/plain/dict/locs are lengths, held 0/1, hist… the histogram values)
+    `w:<rows>:<eff>/<eff>/…` eff = `sw,onplain,type,enc,buf,plain,dict,held,pages,filter,rows,values,tcs,locs,bloomlen,geo,hist…`
+                             (buf/plain/dict/locs are lengths, held 0/1, geo the geospatial state mask, hist… the histogram values)
     `f:F<n>|C:<offset>:<ndefs>`         flush that failed after n columns flushed their page / committed
     `c:F<n>|C:<offset>:<ndefs>:<footerOk>:<offset2>`   close
     `ch:<offset>:<eff>/<eff>/…`         Close that fails while writing the file header: the column writers
@@ -21,7 +21,7 @@ import PqModel.Reset
     `s:<n>`                             SortingWriter sorts and writes a chunk whose last row has n values
     `r`                                 Reset
 * observation: `cols=<col>;… rows= off= md= sort= rgs= cis= ois= def= fmd=`,
-  col = `path|chunkpath|encs|chunkencs|type|enc|sw|onplain|buf|plain|dict|held|pages|filter|rows|values|tcs|locs|bloomlen|hist` -/
+  col = `path|chunkpath|encs|chunkencs|type|enc|sw|onplain|buf|plain|dict|held|pages|filter|rows|values|tcs|locs|bloomlen|hist|geo` -/
 namespace Driver.Ops.C17
 open Driver PqModel.Reset
 
@@ -64,7 +64,7 @@ def parseKV? (s : String) : Option KV :=
 
 def parseEff? (s : String) : Option ColVol :=
   match (s.splitOn ",").mapM parseNat? with
-  | some (sw :: op :: ty :: en :: buf :: pl :: dict :: held :: pages :: fl :: rows :: vals :: tcs :: locs :: bl :: hist) =>
+  | some (sw :: op :: ty :: en :: buf :: pl :: dict :: held :: pages :: fl :: rows :: vals :: tcs :: locs :: bl :: geo :: hist) =>
     some { columnType := ty, encoding := en, hasSwitchedToPlain := sw != 0, onPlainBuffer := op != 0,
            buffered := List.replicate buf 1, plainBuffered := List.replicate pl 1, indexer := [],
            dict := List.replicate dict 1, pageBuffer := if held != 0 then some [] else none,
@@ -72,7 +72,7 @@ def parseEff? (s : String) : Option ColVol :=
            totalUncompressed := 0, totalCompressed := tcs, dataPageOffset := 0, dictPageOffset := 0,
            stats := none, encodingStats := [], bloomOffset := 0, pageLocations := List.replicate locs 1,
            totalUnencoded := 0, levelHist := hist, pageLevelHists := [], bufAllocated := false,
-           bloomLength := bl, sizeStats := [] }
+           bloomLength := bl, sizeStats := [], geo := geo }
   | _ => none
 
 def parseFlush? (k off nd : String) : Option FlushKind :=
@@ -116,7 +116,7 @@ def showColObs (c : ColObs) : String :=
     toString c.vol.buffered.length, toString c.vol.plainBuffered.length, toString c.vol.dict.length,
     b01 c.vol.pageBuffer.isSome, toString c.vol.numPages, toString c.vol.filterLen, toString c.vol.numRows,
     toString c.vol.numValues, toString c.vol.totalCompressed, toString c.vol.pageLocations.length,
-    toString c.vol.bloomLength, showNats c.vol.levelHist]
+    toString c.vol.bloomLength, showNats c.vol.levelHist, toString c.vol.geo]
 
 def showObs (o : Obs) : String :=
   s!"cols={";".intercalate (o.cols.map showColObs)} rows={o.numRows} off={o.offset} " ++
